@@ -565,29 +565,50 @@ def container_method(eng, st, recv, name, pos, kw):
         if name == "__contains__":
             return contains(eng, st, recv, pos[0])
     if recv.kind == "set":
-        if rec.get("readonly") and name in ("add", "update", "discard", "remove", "clear", "pop"):
-            raise Unsupported("mutation of a set-valued heap field through its snapshot")
         if rec.get("lazy") and name in ("add", "update"):
             kk = value_kind(pos[0])
             if kk is None:
                 raise Unsupported("lazy set of non-scalar")
             st = st.setobj(recv.oid, {"dom": z3.K(sort_of(kk), z3.BoolVal(False)), "kkind": kk})
             rec = st.objs[recv.oid]
+
+        def commit(s, newdom):
+            """store the new membership; a snapshot of a set-valued heap field writes through to the heap"""
+            s = s.updobj(recv.oid, dom=newdom)
+            if rec.get("origin"):
+                f, ref = rec["origin"]
+                s = s.setheap(f, z3.Store(eng.heap_arr(s, f), ref, newdom))
+            return s
         if name == "add":
             k = unwrap(pos[0], rec["kkind"])
-            return [("ok", st.updobj(recv.oid, dom=z3.Store(rec["dom"], k, z3.BoolVal(True))), NONE)]
+            return [("ok", commit(st, z3.Store(rec["dom"], k, z3.BoolVal(True))), NONE)]
         if name == "discard":
             k = unwrap(pos[0], rec["kkind"])
-            return [("ok", st.updobj(recv.oid, dom=z3.Store(rec["dom"], k, z3.BoolVal(False))), NONE)]
+            return [("ok", commit(st, z3.Store(rec["dom"], k, z3.BoolVal(False))), NONE)]
         if name == "remove":
             k = unwrap(pos[0], rec["kkind"])
             res = []
             for ok, s in eng.branch(st, z3.Select(rec["dom"], k)):
                 if ok:
-                    res.append(("ok", s.updobj(recv.oid, dom=z3.Store(rec["dom"], k, z3.BoolVal(False))), NONE))
+                    res.append(("ok", commit(s, z3.Store(rec["dom"], k, z3.BoolVal(False))), NONE))
                 else:
                     res.append(eng.raise_(s, "KeyError"))
             return res
+        if name in ("update", "difference_update"):
+            # set.update(iterable) / set.difference_update(iterable) for a list argument: membership of every element set / cleared
+            seq = to_seq(eng, st, pos[0])
+            if seq is None:
+                raise Unsupported(f"set.{name} of this iterable")
+            ks = rec["dom"].sort().domain()
+            newdom = fresh("setupd", rec["dom"].sort())
+            k, j = z3.Const(fresh_name("uk"), ks), _j()
+            w = fresh("upd_wit", z3.ArraySort(ks, I))
+            inlist = z3.And(0 <= w[k], w[k] < seq.n, unwrap(seq.get(st, w[k]), rec["kkind"]) == k)
+            ax1 = FA([j], z3.Implies(z3.And(0 <= j, j < seq.n),
+                                     z3.Select(newdom, unwrap(seq.get(st, j), rec["kkind"])) == z3.BoolVal(name == "update")),
+                     patterns=[unwrap(seq.get(st, j), rec["kkind"])])
+            ax2 = FA([k], z3.Implies(z3.Select(newdom, k) != z3.Select(rec["dom"], k), inlist), patterns=[z3.Select(newdom, k)])
+            return [("ok", commit(st.assume(ax1, ax2), newdom), NONE)]
         if name == "copy":
             st2, out = alloc_set(st, rec["kkind"], dom=rec["dom"])
             return [("ok", st2, out)]
